@@ -668,14 +668,19 @@ def _merge_strings(base, local_diff, remote_diff,
         # Get strategy for this string
         strategy = strategies.get(star_path(path))
 
+        # The two strategies below combine the changes of both sides. A
+        # string inside a dict or list only gets here when both sides changed
+        # it differently, a string that is the whole document gets here always
+        two_sided = bool(local_diff) and bool(remote_diff) and local_diff != remote_diff
+
         # For inline-source, we avoid trying to
         # resolve our own diffs at all and leave
         # the work to the merge conflict renderer
         # (possibly git merge-file or diff3)
-        if strategy == "inline-source":
+        if two_sided and strategy == "inline-source":
             decisions = resolve_strategy_inline_source(
                 path, base, local_diff, remote_diff)
-        elif strategy == "union":
+        elif two_sided and strategy == "union":
             decisions.local_then_remote(path, local_diff, remote_diff)
         else:
             # FIXME XXX: Test regular string merge well also for no specific strategy!
